@@ -27,6 +27,7 @@ EXPLANATION = (
     " (P8) the recorded input of a row is a copy of the same frame's reaction column (shared with C02-T2); (P9) the shipped reagent templates have every key the curation code subscripts and every referenced template exists."
     ' (P10) no container that outlives a batch is mutated on the pipeline path (shared with C06-B4); (P11) the command line passes the rows it read to rebalance unfiltered.'
     " (P12) chunks are not appended to the output under an earlier chunk's layout (shared with C06-B10). (P13) the CSV reader parses under fixed rules, no dialect sniffed from the file. (P14) per-reaction fault handlers are complete (shared with C06-B14)."
+    ' (P15) a fresh-index Series computed over a filtered selection is not combined label-wise with the frame it came from (shared pandas label-alignment rule).'
 )
 ASSUMPTIONS = ["pandas: frame[boolean mask] keeps only the True rows; reset_index/assignment keep the row count"]
 
